@@ -31,6 +31,62 @@ def listOrScalar (v : PyVal) : String :=
   | .list l => "[" ++ ",".intercalate (l.map Num.pyStr) ++ "]"
   | _ => v.pyStr
 
+/-! ### `str(numpy.ndarray)` for the array-valued options (per-channel scales / integer bits) -/
+
+def padLeftSp (n : Nat) (s : String) : String := String.ofList (List.replicate (n - s.length) ' ') ++ s
+def padRightSp (n : Nat) (s : String) : String := s ++ String.ofList (List.replicate (n - s.length) ' ')
+
+def Num.isInt : Num → Bool
+  | .int _ => true
+  | .float _ => false
+
+def Num.rat : Num → Rat
+  | .int i => (i : Rat)
+  | .float q => q
+
+def ratAbs (q : Rat) : Rat := if q < 0 then -q else q
+
+/-- sign + integer digits, and the fraction digits, of a terminating decimal with at most 8
+    fraction digits (numpy's `precision=8`, `unique=True`, `trim='.'`: "2." for 2.0) -/
+def decParts (q : Rat) : Option (String × String) :=
+  match decScale q 8 0 with
+  | Option.none => Option.none
+  | some k =>
+    let m : Nat := (q * (pow10 k : Nat)).num.natAbs
+    some ((if q < 0 then "-" else "") ++ toString (m / pow10 k),
+          if k = 0 then "" else padLeft k (toString (m % pow10 k)))
+
+/-- numpy switches a float array to exponent notation when `max ≥ 1e8`, `min < 1e-4` or
+    `max/min > 1000` over the nonzero absolute values -/
+def npExpFormat (qs : List Rat) : Bool :=
+  match (qs.map ratAbs).filter (· != 0) with
+  | [] => false
+  | a :: t =>
+    let mx := t.foldl (fun x y => if x < y then y else x) a
+    let mn := t.foldl (fun x y => if y < x then y else x) a
+    decide (100000000 ≤ mx) || decide (mn < 1 / 10000) || decide (1000 < mx / mn)
+
+def maxLen (l : List String) : Nat := l.foldl (fun a s => if a < s.length then s.length else a) 0
+
+/-- `str(np.array(l))` for a 1-d array: integers right-aligned to the common width; floats in
+    positional notation, the integer parts right-aligned and the fraction digits left-aligned to
+    their common widths; items separated by ONE BLANK, no commas.  Outside the modelled domain
+    (exponent notation, more than 8 fraction digits) the model answers `"<ndarray>"` and the
+    harness does not generate such option values. -/
+def npListText (l : List Num) : String :=
+  if l.all Num.isInt then
+    let ts := l.map Num.pyStr
+    "[" ++ " ".intercalate (ts.map (padLeftSp (maxLen ts))) ++ "]"
+  else
+    let qs := l.map Num.rat
+    if npExpFormat qs then "<ndarray>"
+    else match mapOpt decParts qs with
+      | Option.none => "<ndarray>"
+      | some ps =>
+        let wl := maxLen (ps.map Prod.fst)
+        let wr := maxLen (ps.map Prod.snd)
+        "[" ++ " ".intercalate (ps.map fun p => padLeftSp wl p.1 ++ "." ++ padRightSp wr p.2) ++ "]"
+
 /-- the `if` in front of a `flags.append` -/
 inductive Cond where
   | always
@@ -56,6 +112,9 @@ inductive Conv where
   | lit (s : String) (v : PyVal)   -- a constant text (`"keep_negative=False"`), denoting `v`
   | intOrList                      -- `str(x).replace(" ", "")`
   | po2max                         -- `_po2_max_value_to_str(x)`
+  | np                             -- `str(np.array(x))`, in single quotes when `x` is a string
+  | npRe                           -- `re.sub(r"\[(\d)\]", r"\1", str(x))`, `x` a number or an ndarray
+  | modStr                         -- `str(x).replace(" ", "")` of an attribute of a tf.Module
   deriving DecidableEq, Repr
 
 /-- one printed flag: keyword (`none` = positional), the Python value the text denotes, the text -/
@@ -93,6 +152,24 @@ def Conv.apply : Conv → PyVal → Except Err (PyVal × String)
   | .lit s d, _ => .ok (d, s)
   | .intOrList, v => .ok (v, listOrScalar v)
   | .po2max, v => po2MaxValue v
+  | .np, v =>
+    match v with
+    | .list l => .ok (v, npListText l)
+    | _ => .ok (v, alphaText v)
+  | .npRe, v =>
+    match v with
+    | .list [.int n] =>
+      -- "[3]" loses its brackets: the text denotes the scalar
+      if 0 ≤ n ∧ n ≤ 9 then .ok (.int n, toString n) else .ok (v, npListText [.int n])
+    | .list l => .ok (v, npListText l)
+    | _ => .ok (v, v.pyStr)
+  | .modStr, v =>
+    -- BaseQuantizer is a tf.Module: a list assigned to an attribute is wrapped for tracking and
+    -- `str()` of the wrapper is "ListWrapper([0, 1])" — not a literal, and its "(" makes
+    -- safe_eval drop every argument of the call (recorded finding)
+    match v with
+    | .list l => .ok (v, "ListWrapper([" ++ ",".intercalate (l.map Num.pyStr) ++ "])")
+    | _ => .ok (v, v.pyStr)
 
 /-- one `if cond(self.name): flags.append(text(self.name))` -/
 structure FlagSpec where
@@ -104,10 +181,10 @@ structure FlagSpec where
 /-- the positional flags of `__str__`, in the order they are appended -/
 def posSpec : Cls → List FlagSpec
   | .quantized_linear => [⟨"bits", .always, .int⟩, ⟨"integer", .always, .int⟩, ⟨"symmetric", .always, .int⟩]
-  | .quantized_bits => [⟨"bits", .always, .str⟩, ⟨"integer", .always, .str⟩, ⟨"symmetric", .always, .int⟩]
+  | .quantized_bits => [⟨"bits", .always, .str⟩, ⟨"integer", .always, .npRe⟩, ⟨"symmetric", .always, .int⟩]
   | .bernoulli | .stochastic_binary | .ternary | .stochastic_ternary | .binary => []
   | .quantized_relu =>
-    [⟨"bits", .always, .str⟩, ⟨"integer", .always, .str⟩, ⟨"use_sigmoid", .truthy, .int⟩, ⟨"negative_slope", .truthy, .str⟩,
+    [⟨"bits", .always, .str⟩, ⟨"integer", .always, .npRe⟩, ⟨"use_sigmoid", .truthy, .int⟩, ⟨"negative_slope", .truthy, .str⟩,
      ⟨"use_stochastic_rounding", .truthy, .int⟩]
   | .quantized_ulaw =>
     [⟨"bits", .always, .str⟩, ⟨"integer", .always, .str⟩, ⟨"symmetric", .truthy, .int⟩, ⟨"u", .ne (.float 255), .str⟩]
@@ -119,16 +196,16 @@ def posSpec : Cls → List FlagSpec
   | .quantized_relu_po2 =>
     [⟨"bits", .always, .str⟩, ⟨"max_value", .notNone, .po2max⟩, ⟨"negative_slope", .truthy, .str⟩,
      ⟨"use_stochastic_rounding", .truthy, .int⟩]
-  | .quantized_hswish => [⟨"bits", .always, .str⟩, ⟨"integer", .always, .str⟩, ⟨"symmetric", .always, .int⟩]
+  | .quantized_hswish => [⟨"bits", .always, .str⟩, ⟨"integer", .always, .npRe⟩, ⟨"symmetric", .always, .int⟩]
 
 /-- the keyword flags of `__str__`, in the order they are appended -/
 def kwSpec : Cls → List FlagSpec
   | .quantized_linear =>
-    [⟨"keep_negative", .falsy, .lit "False" (.bool false)⟩, ⟨"alpha", .notNone, .alpha⟩, ⟨"use_stochastic_rounding", .truthy, .int⟩,
-     ⟨"scale_axis", .notNone, .intOrList⟩]
+    [⟨"keep_negative", .falsy, .lit "False" (.bool false)⟩, ⟨"alpha", .notNone, .np⟩, ⟨"use_stochastic_rounding", .truthy, .int⟩,
+     ⟨"scale_axis", .notNone, .modStr⟩]
   | .quantized_bits =>
     [⟨"keep_negative", .falsy, .lit "False" (.bool false)⟩, ⟨"alpha", .truthy, .alpha⟩, ⟨"use_stochastic_rounding", .truthy, .int⟩,
-     ⟨"scale_axis", .notNone, .intOrList⟩, ⟨"use_ste", .falsy, .lit "False" (.bool false)⟩, ⟨"elements_per_scale", .notNone, .intOrList⟩,
+     ⟨"scale_axis", .notNone, .modStr⟩, ⟨"use_ste", .falsy, .lit "False" (.bool false)⟩, ⟨"elements_per_scale", .notNone, .modStr⟩,
      ⟨"min_po2_exponent", .notNone, .str⟩, ⟨"max_po2_exponent", .notNone, .str⟩]
   | .bernoulli | .stochastic_binary =>
     [⟨"alpha", .notNone, .alpha⟩, ⟨"temperature", .ne (.float 6), .str⟩, ⟨"use_real_sigmoid", .falsy, .int⟩]
@@ -151,7 +228,41 @@ def kwSpec : Cls → List FlagSpec
   | .quantized_hswish =>
     -- `keep_negative` is not a constructor argument of this class (always True): never printed
     [⟨"relu_shift", .always, .str⟩, ⟨"relu_upper_bound", .always, .str⟩, ⟨"alpha", .truthy, .alpha⟩,
-     ⟨"use_stochastic_rounding", .truthy, .int⟩, ⟨"scale_axis", .notNone, .intOrList⟩]
+     ⟨"use_stochastic_rounding", .truthy, .int⟩, ⟨"scale_axis", .notNone, .modStr⟩]
+
+/-- names of the options `__str__` can express -/
+def printedNames (c : Cls) : List String := (posSpec c).map (·.name) ++ (kwSpec c).map (·.name)
+
+/-- constructor parameters no statement of `__str__` mentions: the text cannot denote them, the
+    rebuilt quantizer always gets the constructor default (`qnoise_factor`, `var_name`,
+    `use_variables`, `post_training_scale`) -/
+def unprinted (c : Cls) : List String := (paramNames c).filter fun k => !(printedNames c).contains k
+
+/-- the condition in front of a `flags.append` is anchored at the value `d` (the constructor
+    default of THIS class): it does not hold at `d`; a `!= c` test compares with a value `==` `d`
+    (not with the default of a sibling class that shares the printing code); an `if not x:` flag
+    has default `True`; an `is not None` option has default `None`. -/
+def Cond.anchored (d : PyVal) : Cond → Bool
+  | .always => true
+  | .truthy => !d.truthy
+  | .falsy => d.numVal == some 1
+  | .notNone => d.isNone
+  | .ne c => c.pyEq d
+
+/-- option values for which a truthiness test (`if self.x:` / `if not self.x:`) decides "is the
+    default": flags (bool / 0 / 1), numbers, or `None`-or-truthy for an option whose default is
+    `None`.  The tests `is not None` and `!= c` need no such restriction. -/
+def Cond.kindOK (d : PyVal) : Cond → PyVal → Bool
+  | .truthy, v => v.truthy || (if d.isNone then v.isNone else d.numVal.isSome && v.numVal.isSome)
+  | .falsy, v => !v.truthy || v.numVal == some 1
+  | _, _ => true
+
+def Cond.tag : Cond → String
+  | .always => "always"
+  | .truthy => "truthy"
+  | .falsy => "falsy"
+  | .notNone => "notNone"
+  | .ne _ => "ne"
 
 def mkFlag (key : Option String) (s : FlagSpec) (v : PyVal) : Except Err Flag :=
   match s.conv.apply v with
